@@ -45,7 +45,8 @@ TRUSTED_REASONS = {
     'external_body_struct:': 'opaque data type that plays no role in any proved clause',
     # --- Harper functions whose contract is ASSUMED in Verus (each is also listed per property
     #     under `assumptions`, with the bounded harness that checks it, if any) ---
-    'external_body: remove_indices': 'Vec::retain with stateful closure; bounded-rac only',
+    'external_body: remove_indices': 'callee contract in the callers\' units (modular verification); the body is verified against the same contract in unit vec_ext',
+    'external_body: vec_retain_flags': 'desugaring R9: std Vec::retain keeps, in order, exactly the elements for which the closure returned true, calling it once per element in the original order (std documentation); used by unit vec_ext only',
     'external_body: lex_tabs': 'take_while().count(); Kani-bounded',
     'external_body: lex_spaces': 'take_while().count(); Kani-bounded',
     'external_body: lex_newlines': 'take_while().count(); Kani-bounded',
